@@ -99,6 +99,10 @@ class MPSWorld(World):
             "max_steps": r.choice([6, 10, 16, 24]),
             "record_mode": r.choice(["info", "info", "info", "mixed"]),
             "table": r.choice(["gates", "swaps", "readers", "mixed", "mixed"]),
+            # a third of the runs start from an MPS given by its site arrays
+            # (drawn bond dimensions incl. 1, sites of very different norm)
+            # instead of ``from_dense`` of a generic vector
+            "bonds": [r.choice([1, 1, 2, 3]) for _ in range(L - 1)] if r.random() < 0.33 else None,
         }
 
     # ------------------------------------------------------------------ setup
@@ -119,7 +123,38 @@ class MPSWorld(World):
             v = v + 1j * rng.normal(size=D)
         v = v / np.linalg.norm(v) * knobs["scale"]
         self.psi = v.astype(float if knobs["real"] else complex)
-        st, mps = self.call(lambda: qtn.MatrixProductState.from_dense(self.psi, dims=self.dims, cutoff=0.0))
+        bonds = knobs.get("bonds")
+        if bonds:
+            L = self.L
+            arrays = []
+            for i in range(L):
+                shape = ([] if i == 0 else [bonds[i - 1]]) + ([] if i == L - 1 else [bonds[i]]) + [self.dims[i]]
+                a = rng.normal(size=shape)
+                if not knobs["real"]:
+                    a = a + 1j * rng.normal(size=shape)
+                arrays.append(a * float(rng.choice([0.25, 1.0, 1.0, 4.0])))
+            # dense vector of the arrays, site 0 most significant
+            if L > 1:
+                cur = arrays[0].T  # (d0, r0)
+                for i in range(1, L):
+                    a = arrays[i]
+                    if i < L - 1:
+                        cur = np.tensordot(cur, a, axes=([-1], [0]))  # (..., r, d) 
+                        cur = np.moveaxis(cur, -1, -2)               # (..., d, r)
+                    else:
+                        cur = np.tensordot(cur, a, axes=([-1], [0]))  # (..., d)
+                vec = cur.reshape(-1)
+            else:
+                vec = arrays[0].reshape(-1)
+            nrm = np.linalg.norm(vec)
+            arrays[0] = arrays[0] / nrm * knobs["scale"]
+            self.psi = (vec / nrm * knobs["scale"]).astype(float if knobs["real"] else complex)
+            stats.probe("mps_from_site_arrays")
+            if 1 in bonds:
+                stats.probe("mps_with_bond_of_size_one")
+            st, mps = self.call(lambda: qtn.MatrixProductState([np.array(a) for a in arrays], shape="lrp"))
+        else:
+            st, mps = self.call(lambda: qtn.MatrixProductState.from_dense(self.psi, dims=self.dims, cutoff=0.0))
         if st == "rejected":
             raise Violation("C08/rejected_valid_input", repr(mps))
         self.mps = mps
